@@ -89,3 +89,8 @@ func openEnv() *env {
 	db, _ := OpenWithStore(ms)
 	return &env{db: db, ms: ms}
 }
+
+// sameBlob: two stored values are equal when they are the same opaque blob (blobs are immutable).
+func sameBlob(a, b []byte) bool { return string(a) == string(b) }
+
+func fbits(f float64) uint64 { return mathFloat64bits(f) }
